@@ -183,7 +183,8 @@ Proof. do 2 eexists. split; [vm_compute; reflexivity|]. split; [reflexivity|]. s
 (* ---------------------------------------------------------------- a seig group already present in the clear traf *)
 (* a seig sample group is protection signalling that EncryptFragment neither writes nor updates; ParseReadSenc lets
    its per-sample IV size override the tenc's.  When it agrees with the tenc nothing changes; when it does not, the
-   senc EncryptFragment wrote is misread - here silently: 16-byte IVs read as 8-byte IVs *)
+   senc EncryptFragment wrote cannot be read: 16-byte IVs do not fill the data as 8-byte IVs (an error since the
+   ParseReadBox fix; before it they were silently read as two 8-byte IVs) *)
 Lemma seig_agrees p moof_start senc_start saio box :
   traf_senc_seig p (Some p) moof_start senc_start saio box = traf_senc p moof_start senc_start saio box /\
   traf_senc_seig p None moof_start senc_start saio box = traf_senc p moof_start senc_start saio box.
@@ -191,12 +192,11 @@ Proof. split; reflexivity. Qed.
 
 Lemma seig_override_refuted :
   let encs := [mkEnc (repeat 1 16) [] []; mkEnc (repeat 2 16) [] []] in
-  exists s box s',
+  exists s box,
     senc_of_r senc_empty encs = Ok s /\ senc_encode s = Ok box /\
-    traf_senc_seig 16 None 100 124 (Some 40) box = Ok s /\
-    traf_senc_seig 16 (Some 8) 100 124 (Some 40) box = Ok s' /\
-    sn_ivs s' <> decoded_ivs encs /\ sn_count s' = 2.
+    traf_senc_seig 16 None 100 124 (Some 40) box = Ok s /\ sn_ivs s = decoded_ivs encs /\
+    traf_senc_seig 16 (Some 8) 100 124 (Some 40) box = Err.
 Proof.
-  do 3 eexists. split; [vm_compute; reflexivity|]. split; [vm_compute; reflexivity|].
-  split; [vm_compute; reflexivity|]. split; [vm_compute; reflexivity|]. split; [vm_compute; discriminate|reflexivity].
+  do 2 eexists. split; [vm_compute; reflexivity|]. split; [vm_compute; reflexivity|].
+  split; [vm_compute; reflexivity|]. split; vm_compute; reflexivity.
 Qed.
